@@ -30,3 +30,9 @@ claim("C20",
   "Every explored input must make every call return normally: panics are caught and attributed to their first kin-openapi frame, process deaths (stack overflow) are attributed through a per-case journal and re-run alone, non-termination is a 20 s watchdog confirmed by a 60 s solo re-run. Sampled; inputs <= 64 KiB.",
   "Trusted: guard/journal/watchdog machinery. Wall-clock enters only the non-termination oracle. Three open panic classes are listed in known_findings.json (printed as KNOWN-FINDING, suppressed by exact signature); eight others found here were repaired.",
   "DESIGN.md#c20")
+
+claim("C03",
+  "property-based testing with round-trip / idempotence oracles: rapid-generated documents from a meta-model of every OpenAPI 3.0.3 and Swagger 2.0 object kind (all field subsets, YAML-hostile strings, extensions, unknown fields, references), compared as parsed JSON after load->marshal (identity on normal form), load->marshal->load->marshal through JSON and through YAML (idempotence), and YAML input vs JSON input",
+  "For every generated document: R1 the marshalled JSON of a normal-form document equals the input; R2 marshal o load is idempotent through the JSON and the YAML writer; R3 the YAML reader and the JSON reader agree. A difference is reported with the JSON pointer of the first lost / invented / changed field. Sampled; (kind, field) population counts are in the evidence.",
+  "Trusted: the meta-model tables (transcribed from the specifications), oasdiff/yaml for producing YAML input text, jv.Equal. Documents the library refuses to parse are outside the property (two v2 parser restrictions found that way are described in DESIGN.md and avoided by construction).",
+  "DESIGN.md#c03")
